@@ -42,7 +42,7 @@ pub fn expand_self<T: VisitableMut + Clone>(input: &T, to: &Type) -> T {
             if i == &tself {
                 // `&Self` must not become `&dyn A + B`: a trait object with several bounds is parenthesized.
                 *i = match self.to {
-                    Type::TraitObject(t) if t.bounds.len() > 1 => {
+                    Type::TraitObject(t) if (t.bounds.len() > 1 || t.bounds.trailing_punct()) => {
                         let to = self.to;
                         parse_quote!((#to))
                     }
